@@ -615,7 +615,7 @@ def evaluate(ck, cases, tag="C08", want_domain=False):
             res = list(ex.map(lambda nf: common.coq_failing("%s_%s" % (tag, nf[0]), HEADER, ty, nf[1], sub), fns))
         (bad_agree, e1), (bad_mon, e2), (bad_hyg, e3), (has_k2, e4), (has_k2b, e5) = res
         errs = errs + e1 + e2 + e3 + e4 + e5
-        rank = {"ok": 0, "ood": 1, "known:K2": 2, "known:K2b": 2, "known:K2c": 2, "mismatch": 3, "violation": 4}
+        rank = {"ok": 0, "ood": 1, "known:K2": 2, "known:K2b": 2, "known:K2c": 2.5, "mismatch": 3, "violation": 4}
         for j, li in enumerate(bad):
             i, staging = owner[li]
             d = {"model_differs": j in bad_agree, "monitor_false": j in bad_mon,
